@@ -456,9 +456,32 @@ theorem C06_discMeetsRing_sound (ctr : Pt) (r : Rat) (A : List Pt) (h : discMeet
 theorem C06_withinTol_sound (tol : Rat) (A : List Pt) (p : Pt) (h : withinTol tol A p = true) :
     ∃ q, inRing A q = true ∧ d2 q p ≤ tol * tol := withinTol_sound tol A p h
 
+/-- Exactness at the level of segments: `segMeet` holds iff the two closed segments have a common point (proper
+    crossing, touching in an end point, and every collinear overlap included), `segNear` iff some point of the closed
+    segment is within the squared distance. -/
+theorem C06_segMeet_exact (a b c d : Pt) :
+    segMeet a b c d = true ↔ ∃ q, onSeg a b q = true ∧ onSeg c d q = true := segMeet_iff a b c d
+
+theorem C06_segNear_exact (a b p : Pt) (r2 : Rat) :
+    segNear a b p r2 = true ↔ ∃ q, onSeg a b q = true ∧ d2 q p ≤ r2 := segNear_iff a b p r2
+
+/-- Hence: `ringsMeet` holds iff the two boundaries share a point or a vertex of one polygon lies in the other … -/
+theorem C06_ringsMeet_iff (A B : List Pt) : ringsMeet A B = true ↔
+    (∃ e ∈ edges A, ∃ f ∈ edges B, ∃ q, onSeg e.1 e.2 q = true ∧ onSeg f.1 f.2 q = true) ∨
+    (∃ a ∈ A, inRing B a = true) ∨ (∃ b ∈ B, inRing A b = true) := ringsMeet_iff A B
+
+/-- … `discMeetsRing` iff the centre lies in the polygon or a boundary point is within `r` of it, `withinTol` likewise. -/
+theorem C06_discMeetsRing_iff (ctr : Pt) (r : Rat) (A : List Pt) : discMeetsRing ctr r A = true ↔
+    0 ≤ r ∧ (inRing A ctr = true ∨ ∃ e ∈ edges A, ∃ q, onSeg e.1 e.2 q = true ∧ d2 q ctr ≤ r * r) :=
+  discMeetsRing_iff ctr r A
+
+theorem C06_withinTol_iff (tol : Rat) (A : List Pt) (p : Pt) : withinTol tol A p = true ↔
+    (inRing A p = true ∨ ∃ e ∈ edges A, ∃ q, onSeg e.1 e.2 q = true ∧ d2 q p ≤ tol * tol) := withinTol_iff tol A p
+
 /-- Full statement of exactness of `ringsMeet` for simple polygons: it holds iff the closed polygons share a point.
-    Proved: the direction above (`C06_ringsMeet_sound`), the case of a common vertex and the degenerate cases.  Missing:
-    "a common point shows as an edge contact or a contained vertex", which needs that the crossing parity does not
+    Proved: the direction above (`C06_ringsMeet_sound`), the exact meaning of the predicate (`C06_ringsMeet_iff`: the
+    boundaries share a point or a vertex of one lies in the other), the case of a common vertex, the degenerate cases.
+    Missing: "a common point of two polygons always shows as a boundary contact or a contained vertex", which needs that the crossing parity does not
     change along a segment that avoids the ring (the core of the Jordan curve theorem for polygons); the harness
     compares with GEOS and with an independent exact implementation on every `meets` / `net` / `obst` case instead. -/
 def C06_ringsMeet_exact_full : Prop :=
